@@ -312,6 +312,7 @@ def _main(a, pid):
     stats = {'evaluations': 0, 'harness_errors': [], 'faults': {}, 'probes': {}, 'modes': {},
              'steps': 0, 'simtime': 0.0, 'execs': 0, 'fault_runs': 0, 'fault_free_runs': 0}
     shapes = set()
+    interleavings = set()
     digests = {}
     samples = []
     violations = {}   # sig -> first outcome
@@ -358,6 +359,8 @@ def _main(a, pid):
             stats['fault_free_runs'] += 1
         if out.get('nontrivial'):
             shapes.add(out.get('shape'))
+        if out.get('interleaving'):
+            interleavings.add(out['interleaving'])
         if out.get('seed') is not None and out.get('tag') != 'directed':
             digests[out['seed']] = (out.get('digest'), out['lane_hashseed'])
         if out.get('sample') is not None and len(samples) < 3:
@@ -435,6 +438,7 @@ def _main(a, pid):
     if stats['determinism_mismatches']:
         print('HARNESS-ERROR nondeterministic seeds: %r' % stats['determinism_mismatches'][:5])
     if not a.no_evidence:
+        stats['distinct_interleavings'] = len(interleavings)
         write_evidence(pid, prop, tier, base_seed, wall, stats, shapes, samples,
                        len(new), [s for s, _ in known_hit])
     print('%s %s: %d sim-runs (%d executions of the runner), %d distinct non-trivial shapes, '
@@ -513,6 +517,9 @@ def write_evidence(pid, prop, tier, seed, wall, stats, shapes, samples, nviol, k
             'runs_per_hour': int(stats['evaluations'] / max(wall, 1e-6) * 3600),
             'simulated_seconds': round(stats['simtime'], 3),
             'scheduler_steps': stats['steps'],
+            'distinct_interleavings': stats.get('distinct_interleavings', 0),
+            'distinct_interleavings_rule': 'distinct digests of (scheduler event log, choice '
+                                           'list) among executions that had child processes',
             'faults_fired': stats['faults'],
             'probes': stats['probes'],
             'modes': stats['modes'],
